@@ -55,6 +55,7 @@ type Exec struct {
 	bitScanStack []bitScanCtx
 	rtIndex map[rtKey]*rtEntry
 	killPath *Term
+	tier string
 	backings map[string]*Object
 	panicAsAssume bool // treat explicit panics as path end without obligation (per harness option)
 }
@@ -1066,6 +1067,9 @@ func (x *Exec) binop(fr *Frame, t *ssa.BinOp, g *Term) Value {
 		x.runtimeCheck("div-by-zero", g, c.Eq(b, c.Const(b.Sort.W, 0)), t.Pos())
 		if signed {
 			if t.Op == token.QUO {
+				if x.opts["abstract-div"] == "on" && b.IsConst() && !a.IsConst() && sx(b.K, b.Sort.W) > 0 {
+					return x.abstractDiv(a, b)
+				}
 				return c.SDiv(a, b)
 			}
 			return c.SRem(a, b)
@@ -1129,6 +1133,28 @@ func (x *Exec) binop(fr *Frame, t *ssa.BinOp, g *Term) Value {
 	}
 	x.fail("unsupported binop %s", t.Op)
 	return nil
+}
+
+// abstractDiv replaces a/c (c > 0 constant, signed) by a fresh variable q constrained by the
+// defining property of truncated division for a >= 0:  0 <= q, c*q <= a < c*q + c (no overflow since
+// q <= a). For a < 0 q stays unconstrained (over-approximation: sound for "unsat"; a counterexample
+// is confirmed or refuted by the native replay).
+func (x *Exec) abstractDiv(a, b *Term) *Term {
+	c := x.c
+	key := fmt.Sprintf("div:%d:%d", a.ID, b.K)
+	if v, ok := x.ghost[key]; ok {
+		return v.(*Term)
+	}
+	w := a.Sort.W
+	q := c.Fresh("vx.quot", BV(w))
+	zero := c.Const(w, 0)
+	nonneg := c.Sle(zero, a)
+	cq := c.Mul(q, b)
+	def := c.And(c.Sle(zero, q), c.And(c.Sle(q, a), c.And(c.Sle(cq, a), c.Slt(c.Sub(a, cq), b))))
+	x.assumes = append(x.assumes, c.Implies(nonneg, def))
+	x.ghost[key] = q
+	x.modeled["integer division by a positive constant abstracted by its defining inequalities (opt abstract-div)"]++
+	return q
 }
 
 func (x *Exec) equal(a, b Value, t types.Type) *Term {
